@@ -28,7 +28,7 @@ package views
 //@ func (ProgressData).Log
 //@   props C19
 //@   requires logger != nil
-//@   assert before call log.IterationStatsGroup : [same-counts] arg0 == 0 && arg1 == d.SuccessfulIterationCount && arg2 == d.FailedIterationCount && arg3 == d.DroppedIterationCount && arg4 == d.Period
+//@   assert before call log.IterationStatsGroup : [same-counts] arg0 == (d.SuccessfulIterationCount + d.FailedIterationCount + d.DroppedIterationCount) % 18446744073709551616 && arg1 == d.SuccessfulIterationCount && arg2 == d.FailedIterationCount && arg3 == d.DroppedIterationCount && arg4 == d.Period
 //@
 //@ // template helper "rate": iterations per second over the duration rounded to whole seconds; 0 for less than half a second
 //@ func parseTemplates$1
